@@ -520,9 +520,7 @@ func isArray(buf []byte) bool {
 Loop:
 	for _, c := range buf {
 		switch c {
-		case ' ':
-		case '\n':
-		case '\t':
+		case ' ', '\n', '\t', '\r':
 			continue
 		case '[':
 			return true
@@ -1274,7 +1272,7 @@ func (p Patch) ApplyIndentWithOptions(doc []byte, indent string, options *ApplyO
 	self := newLazyNode(&raw)
 
 	var pd container
-	if doc[0] == '[' {
+	if isArray(doc) {
 		pd = &partialArray{
 			self: self,
 		}
